@@ -26,7 +26,7 @@
      flat_doc), hence C04_paths_agree; the strategy/resolver, unknown-field skipping (IgnoredAny ->
      skip_value / skip_container / no look at the tape), ghost skipping, nested containers, Option,
      enums, typed hints incl. wrong ones (genuine errors are part of spec_value) are all inside these
-     statements.  C04_ghost_skipped, C04_rgb_components, C04_unknown_field_skipped characterise the
+     statements.  C04_ghost_skipped, C04_rgb_components_*, C04_unknown_field_skipped characterise the
      specification itself.
    Refuted (findings, replayed by props/C04.py): C04_u16_on_id_value_refuted -- a u16 target on a token id
    in VALUE position: on-demand/stream hand out the id, the tape path resolves it and fails;
@@ -97,6 +97,23 @@ Theorem C04_ghost_skipped : forall cfg fuel sh fs g,
   spec_value cfg fuel sh fs g = spec_value cfg fuel sh (erase_fields fs) false.
 Proof. exact ghost_skipped_spec. Qed.
 Print Assumptions C04_ghost_skipped.
+
+(* unknown fields: a field whose key names no field of the struct target ([unknown_key]: the field
+   identifier visitor answers None for what the key deserializer hands it -- by name, or by token for a
+   token-attribute struct) can be deleted from the document, whatever its value contains (nested
+   containers, rgb, values no shape would fit): the specified value is unchanged.  With the path theorems:
+   every path skips it in its entirety (on-demand: Lexer::skip_value, stream: skip_container -- the C09
+   theorems inside C04_ondemand_eq_spec / C04_reader_eq_spec; tape: the end index). *)
+Theorem C04_unknown_field_skipped : forall cfg fuel tk fields g l1 x l2,
+  unknown_key cfg tk fields x -> (length (l1 ++ x :: l2) < fuel)%nat ->
+  spec_value cfg fuel (ShStruct tk fields) (l1 ++ x :: l2) g = spec_value cfg fuel (ShStruct tk fields) (l1 ++ l2) g.
+Proof. exact unknown_field_skipped_spec. Qed.
+Print Assumptions C04_unknown_field_skipped.
+
+Example C04_unknown_key_nonvacuous :
+  unknown_key cfg0 false [([97], None, MOnce, ShU 8)] (false, SQuoted [98], VObj [(false, SI32 1, VRgb (mkrgb 1 2 3 None))] true) /\
+  unknown_key cfg0 true [([97], Some 7, MOnce, ShU 8)] (false, SId 4660, VArr []).
+Proof. split; eexists; split; reflexivity. Qed.
 
 (* rgb: the visitor receives the two-element sequence ("rgb", [r, g, b(, a)]) *)
 Theorem C04_rgb_components_any : forall cfg n c,
